@@ -22,13 +22,30 @@ ROUND_TEXT = {
         "largest or smallest magnitudes the property allows) rather than wrong everywhere; an error path (an exception that is no "
         "longer raised, or an object left modified after a rejected operation); a conversion between two classes that is only wrong for "
         "one hemisphere / sign / handedness; two cooperating edits that are each harmless alone."),
+    4: ("This is a FOURTH round.  Earlier rounds already produced: slips in the main base functions and in their option threading; "
+        "slips confined to sequence (multi-valued) branches; in-place edits of caller arrays and of an object's own storage through "
+        "augmented operators; integer-dtype buffers; thresholds compared with the wrong quantity; caches and memoised values that are "
+        "never invalidated; module-level or default-argument arrays shared between results; numerically unstable reformulations near "
+        "a half turn, near the identity and for small triangles far from the origin; dropped range / length / class checks.  Find "
+        "something those do not cover.  Ideas: a change that is only wrong for a particular COMBINATION of two documented features "
+        "(e.g. a unit option together with a sequence argument together with a non-default order); a change in a helper that only "
+        "one rarely exercised caller depends on; a result that is right in value but wrong in class, length, shape or dtype in one "
+        "branch; a change in exception behaviour (wrong exception type where the property names one, or an exception swallowed and "
+        "replaced by a default value); a change that makes two routes that the property says must agree drift apart by slightly more "
+        "than the stated tolerance only at the extremes of the stated input range; an off-by-one in an index or slice helper; "
+        "something order-dependent (the answer depends on what was called before)."),
 }
+
+HUNT_TEXT = '''ALSO, BEFORE the mutants (about a third of your effort): hunt for inputs for which the UNMODIFIED tree already violates the property.  Read the statement and the quantifier literally and probe its corners systematically with small scripts: every class and call form it names, the extremes of the stated ranges, exact special values, multi-valued objects, every option value, both units, documented aliases, sequences of operations on one object.  Write what you find to {wt}/bughunt.md: for each violation a two-line reproduction, the value obtained and the value the property requires; if you find none, list briefly what you covered.  Do not fix anything.
+
+'''
 
 for line in open('/verif/properties.jsonl'):
     d = json.loads(line)
     pid = d['id']
     wt = '%s/%s' % (root, pid)
     anchors = '; '.join('%s @ %s' % (m['name'], m['where']) for m in d['anchors']['mechanism'])
+    HUNT = HUNT_TEXT.format(wt=wt) if rnd >= 4 else ""
     txt = f"""You are working in your own scratch git worktree of the pure-Python library petercorke/spatialmath-python at {wt} (nothing else: do not read or write /repo or /verif or any other directory under /tmp, and do not look for any verification tooling).  Interpreter: /venv/bin/python.  Always run with `PYTHONPATH={wt}` from inside {wt} so that the worktree copy is imported (check `spatialmath.__file__` once).  Use `-W ignore` to silence SyntaxWarnings.
 
 Here is a semantic property that the library is supposed to satisfy:
@@ -56,7 +73,7 @@ DELIVERABLES, for k = 1, 2, in {wt}/mutant<k>/ :
   - README.md  : 5-10 lines: what the change is, which part of the property it breaks, and what exactly is needed for it to manifest (inputs / options / sequence), and why the existing tests do not notice.
 Procedure for each mutant: start from a clean tree (`git checkout -- spatialmath`), make the change, run the test suite (must be 228 passed), run demo.py (must FAIL), save the patch, `git checkout -- spatialmath`, run demo.py again (must PASS).  Leave the worktree clean (only the untracked mutant1/ mutant2/ directories) when finished.
 
-Finish with a short report: for each mutant one paragraph (file/function changed, what it needs to manifest, the test-suite result line, demo result with and without the patch), then the list of pre-existing bugs you noticed (or "none").
+{HUNT}Finish with a short report: for each mutant one paragraph (file/function changed, what it needs to manifest, the test-suite result line, demo result with and without the patch), then the list of pre-existing bugs you noticed (or "none").
 """
     open('%s/prompts_%s.txt' % (root, pid), 'w').write(txt)
 print('prompts written to', root)
